@@ -19,7 +19,7 @@ func init() {
 var ccPackages = []string{
 	"src/free5gclib/aper", "src/free5gclib/ngap", "src/free5gclib/ngap/ngapConvert", "src/free5gclib/nas", "src/free5gclib/nas/nasMessage",
 	"src/free5gclib/nas/nasConvert", "src/free5gclib/nas/nasTestpacket", "src/free5gclib/nas/security", "src/free5gclib/nas/security/snow3g",
-	"src/free5gclib/UeauCommon", "src/free5gclib/milenage", "src/tglib", "src/tglib/ngapTestpacket",
+	"src/free5gclib/UeauCommon", "src/free5gclib/milenage", "src/tglib", "src/tglib/ngapTestpacket", "src/stgutg",
 }
 
 // instrumentedCopy makes the yield/access-instrumented copy of the scratch tree.
@@ -31,7 +31,7 @@ func (e *Env) instrumentedCopy() (string, map[string]interface{}, error) {
 	tool := filepath.Join(verifDir(), "bin", "instrument")
 	// each module of the repository has its own import-path root
 	report := map[string]interface{}{}
-	for _, grp := range [][2]string{{"src/free5gclib", "free5gclib"}, {"src/tglib", "tglib"}} {
+	for _, grp := range [][2]string{{"src/free5gclib", "free5gclib"}, {"src/tglib", "tglib"}, {"src/stgutg", "stgutg"}} {
 		var rel []string
 		for _, p := range ccPackages {
 			if p == grp[0] {
@@ -67,7 +67,7 @@ func checkC20(c *Ctx) {
 		"third-party packages (wmnsk/milenage, aead/cmac, logrus, std) are not instrumented: shared state inside them is invisible to the race clause; results are still compared",
 		"locks are identified by the text of the receiver expression: two different mutex objects reached through the same expression count as one (over-approximates 'common lock')",
 		"NG Setup is not part of the workload: it is a per-gNB operation, and the statement is about different UEs"}
-	c.Components = map[string][]string{"real": {"free5gclib aper, ngap, nas, nasMessage, nasConvert, nasTestpacket, security, snow3g, UeauCommon, milenage; tglib, tglib/ngapTestpacket (instrumented copies)", "wmnsk/milenage, aead/cmac (uninstrumented)"},
+	c.Components = map[string][]string{"real": {"free5gclib aper, ngap, nas, nasMessage, nasConvert, nasTestpacket, security, snow3g, UeauCommon, milenage; tglib, tglib/ngapTestpacket, stgutg (instrumented copies)", "wmnsk/milenage, aead/cmac (uninstrumented)"},
 		"stub": {"the Go scheduler's choice of the running goroutine is replaced by verifsim/simrt"}}
 	src, report, err := c.Env.instrumentedCopy()
 	if err != nil {
